@@ -153,7 +153,7 @@ func (c *Content) WithFileInfoDefaults(umask fs.FileMode, mtime time.Time) *Cont
 				cc.FileInfo.MTime = info.ModTime()
 			}
 			if cc.FileInfo.Mode == 0 {
-				cc.FileInfo.Mode = info.Mode() &^ umask
+				cc.FileInfo.Mode = unixModeBits(info.Mode()) &^ umask
 			}
 			cc.FileInfo.Size = info.Size()
 		}
@@ -508,7 +508,7 @@ func addTree(
 
 			c.Type = TypeDir
 			c.Destination = NormalizeAbsoluteDirPath(destination)
-			c.FileInfo.Mode = info.Mode() &^ umask
+			c.FileInfo.Mode = unixModeBits(info.Mode()) &^ umask
 			c.FileInfo.MTime = info.ModTime()
 			if ownedByFilesystem(c.Destination) {
 				c.Type = TypeImplicitDir
@@ -552,6 +552,26 @@ func addTree(
 
 		return nil
 	})
+}
+
+// unixModeBits moves the set-user-ID, set-group-ID and sticky bits of a mode
+// that was read from the file system to where a mode given in the
+// configuration has them (04000, 02000 and 01000), which is where the
+// packagers look for them: io/fs keeps them in bits of its own that only the
+// deb packager translated, so that the other formats dropped them, wrote them
+// into the wrong place or failed to build.
+func unixModeBits(mode fs.FileMode) fs.FileMode {
+	m := mode &^ (fs.ModeSetuid | fs.ModeSetgid | fs.ModeSticky)
+	if mode&fs.ModeSetuid != 0 {
+		m |= 0o4000
+	}
+	if mode&fs.ModeSetgid != 0 {
+		m |= 0o2000
+	}
+	if mode&fs.ModeSticky != 0 {
+		m |= 0o1000
+	}
+	return m
 }
 
 // occupant returns the content already present at the given destination, be
